@@ -27,6 +27,9 @@ func zzFailedCanaryStore() (*fakeapi.Client, *datadoghqv1alpha1.ExtendedDaemonSe
 	tplA := zzTemplate("A")
 	if nondet.Bool("templatesDifferInMetadata") {
 		tplA.Annotations = map[string]string{"checksum/config": "a"}
+		// (the CRD exposes the whole ObjectMeta of the template: a namespace and a generateName may be there)
+		tplA.Namespace, tplA.GenerateName = "ns2", "agent-"
+		ds.Spec.Template.Namespace, ds.Spec.Template.GenerateName = "ns2", "agent-"
 		ds.Spec.Template.Annotations = map[string]string{"checksum/config": "b", "canary-only": "x"}
 		ds.Spec.Template.Labels["track"] = "next"
 	}
@@ -104,6 +107,11 @@ func ZZ_C07_rollbackWrites() {
 	nondet.Assert("C07.rollback.store", st.Status.Canary == nil && st.Status.ActiveReplicaSet == "foo-a" && zzImage(&st.Spec.Template) == "agent:A")
 	// the failed replica set is not deleted by the reconcile that rolls back
 	nondet.Assert("C07.rollback.failed-rs-kept", c.Count("delete", "ExtendedDaemonSetReplicaSet") == 0)
+	// ... and the restored template is the active replica set's: the next reconcile finds it up to date —
+	// no third replica set, no new canary, the active replica set stays active
+	_, err2 := zzReconcile(zzReconciler(c), "ns", "foo")
+	st2 := zzStoredEDS(c, "ns", "foo")
+	nondet.Assert("C07.rollback.settled", err2 == nil && c.Count("create", "ExtendedDaemonSetReplicaSet") == 0 && st2.Status.Canary == nil && st2.Status.ActiveReplicaSet == "foo-a")
 	nondet.Observe("active", st.Status.ActiveReplicaSet)
 	nondet.Observe("image", zzImage(&st.Spec.Template))
 	nondet.Reach("C07.rollback.done", statusIdx >= 0 && specIdx >= 0)
